@@ -23,6 +23,9 @@ Require Import Ctpg.Proofs.ReportViable.
 Require Import Ctpg.Proofs.ReportHalt.
 Require Import Ctpg.Proofs.ReportCex.
 Require Import Ctpg.Proofs.LRComplete.
+Require Import Ctpg.Valid.LRProductive.
+Require Import Ctpg.Proofs.TermViable.
+Require Import Ctpg.Proofs.TermAll.
 From Coq Require Import Permutation.
 
 (* without error rules a quiet parse writes nothing on success and exactly one message on failure *)
@@ -66,6 +69,12 @@ Theorem C09_reject_iff_not_in_language_for_halting_runs :
   forall (g : grammar) (sts : list items) (tbl : LRGen.table) (w : list nat), validate g sts tbl = true -> closure_generated g sts -> no_error_symbol g tbl = true -> LRSound.tokens_ok g w -> (exists fuel : nat, tree_run g tbl w fuel <> OutOfFuel) -> (exists fuel : nat, tree_run g tbl w fuel = Reject) <-> ~ derives g w.
 Proof. exact reject_iff_not_in_language_halting. Qed.
 Print Assumptions C09_reject_iff_not_in_language_for_halting_runs.
+
+(* never silently, unconditionally: for a table that passes term_checks and has no error rules, some fuel decides - derivable inputs are accepted with their tree, all others are rejected (and rejected runs write their one message, C09_one_message) *)
+Theorem C09_reject_iff_not_in_language :
+  forall (g : grammar) (sts : list items) (tbl : LRGen.table) (w : list nat), term_checks g sts tbl = true -> no_error_symbol g tbl = true -> LRSound.tokens_ok g w -> exists fuel : nat, forall fuel' : nat, fuel <= fuel' -> (derives g w -> exists t : tree, tree_run g tbl w fuel' = Accept t /\ derives_tree g t w) /\ (~ derives g w -> tree_run g tbl w fuel' = Reject).
+Proof. exact decides_language_checked. Qed.
+Print Assumptions C09_reject_iff_not_in_language.
 
 (* every outcome is: accepted with a derivation tree, rejected and not derivable, or out of fuel *)
 Theorem C09_every_outcome :
